@@ -29,7 +29,7 @@ ID = 'C17'
 
 MANIFEST = dict(
     technique='explicit-state search over crash points: every write position of every reachable output-tree state is a kill point for the real parse_folder.main() (in-process fault injection at open/imwrite), up to k successive crashes, x output subsets x page-id sets; oracle = uninterrupted run',
-    text='Bounded exhaustive fault enumeration: for each configuration the state graph of output trees is explored breadth-first; in every reachable state the real tool is run with a kill injected before each of its writes (and once to completion), up to 2 (quick) / 3 (thorough) successive crashes on 3 pages (one of them without lines); from every reached state an uninterrupted resume must end with exactly the files of an uninterrupted run, return normally, and not re-process pages that were already complete. Configurations: all 31 non-empty subsets of {xml, render, logits, alto, lines} x 4 page-id sets (plain, dotted, containing ".xml." / ".jpg."). Added: expected file names of an uninterrupted run, and a kill before every write of a model-free batch followed by a resume with the real command-line tool and --process-count 3 (2-4 thorough).',
+    text='Bounded exhaustive fault enumeration: for each configuration the state graph of output trees is explored breadth-first; in every reachable state the real tool is run with a kill injected before each of its writes (and once to completion), up to 2 (quick) / 3 (thorough) successive crashes on 3 pages (one of them without lines); from every reached state an uninterrupted resume must end with exactly the files of an uninterrupted run, return normally, and not re-process pages that were already complete. Configurations: all 31 non-empty subsets of {xml, render, logits, alto, lines} x 4 page-id sets (plain, dotted, containing ".xml." / ".jpg."). Added: expected file names of an uninterrupted run, and a kill before every write of a model-free batch followed by a resume with the real command-line tool and --process-count 3 (2-4 thorough). PAGE XML, rendering and logits written to one shared output directory.',
     note='Kills happen between writes (no torn files); 2 pages; lmdb line output not covered; runs are in-process (the tool\'s own argument parsing, parser construction and write path are the real ones).',
     ref='3/C17')
 
